@@ -156,11 +156,6 @@ func ZzC15L3()      { zzC15(10001, 3) }
 func ZzC15L3Low()   { zzC15(1, 3) }
 func ZzC15L4()      { zzC15(10001, 4) }
 
-func (w *zzC15World) dbg(s string) {
-	st := w.w.Manager.SyncedTo()
-	println(s, "synced", st.Height, "tip", w.chain.tip().height)
-}
-
 // zzC15Startup: the best chain changes while the wallet is stopped (a reorg
 // of the given depth below the wallet's tip, the new branch possibly longer);
 // syncWithChain must roll the wallet back to the last common block. The
